@@ -5,6 +5,7 @@
 -/
 import ALV.Lemmas.C04Index
 import ALV.Lemmas.C04PS
+import ALV.Lemmas.C04Sparse
 import ALV.Common.Audit
 
 set_option linter.unusedSectionVars false
@@ -265,6 +266,21 @@ theorem noncausal_after_normalise (num den : Terms K) (p : Int) (h : minKey den 
   simp only [List.mem_append, shiftKeys, List.mem_map]
   exact Or.inl ⟨kv, hkv, rfl⟩
 
+/-! ### C04.9 the model's dense compilation is the code's sparse iteration -/
+
+/-- **C04.9** (`compile_iterates_terms`): the code builds `data_sum` by iterating the sparse
+dictionaries (`numdict`, then `dendict` whose delay-0 entry is the gain) in ascending power; the
+model compiles the dense lists `values()` and skips zeros.  For every causal pair of polynomials
+as `terms()` yields them (strictly ascending powers, no stored zero) the summands are the same,
+in the same order. -/
+theorem compile_iterates_terms (num : Terms K) (a0 : K) (r : Terms K)
+    (hsn : List.Pairwise (fun x y => x.1 < y.1) num) (hrn : ∀ kv ∈ num, 0 ≤ kv.1 ∧ kv.2 ≠ 0)
+    (hsd : List.Pairwise (fun x y => x.1 < y.1) (((0 : Int), a0) :: r)) (hrd : ∀ kv ∈ r, kv.2 ≠ 0) :
+    numAtoms 0 (dense num) ++ denAtoms 1 (dense (((0 : Int), a0) :: r)).tail
+      = (num.map (fun kv => numAtoms kv.1.toNat [kv.2])).flatten
+        ++ (r.map (fun kv => denAtoms kv.1.toNat [kv.2])).flatten := by
+  rw [numAtoms_dense num hsn hrn, denAtoms_dense a0 r hsd hrd]
+
 /-! ### non-vacuity -/
 
 /-- the `ZFilter` docstring: `ZFilter([1, 1], [1, -1])([1, 5, -4, -7, 9], memory=[3], zero=0)` -/
@@ -276,6 +292,11 @@ example : evalIR (compile [1, -1, 0, 3] [2, 1, -1, 0, 5] (0 : Rat)) [1, 2, 3, 4]
 example : evalIR (compile [0, 0] [3] (7 : Rat)) [] 7 [1, 2, 3] = [7, 7, 7] := by decide +kernel
 example : call [((-1 : Int), (1 : Rat)), (0, 2)] [(0, 3), (1, 1)] Mem.none 0 [1, 2]
     = .error .valueError := by decide +kernel
+example : numAtoms 0 (dense [((0 : Int), (1 : ℚ)), (3, 5)]) ++ denAtoms 1 (dense [((0 : Int), (2 : ℚ)), (2, -1)]).tail
+    = [Atom.var (.d 0), Atom.mul 5 (.d 3), Atom.var (.m 2)] := by
+  rw [compile_iterates_terms _ _ _ (by simp) (by simp) (by simp) (by simp)]
+  simp [numAtoms, denAtoms]
+  norm_num
 /-- the hypotheses of C04.1 / C04.1' / C04.6 are satisfiable on a non-trivial filter -/
 example : DiffEq [1, -1, 0, 3] (2 : ℚ) [1, -1, 0, 5] 0 [1, 2, 3, 4] [2, 4, 6]
     (evalIR (compile [1, -1, 0, 3] [2, 1, -1, 0, 5] (0 : ℚ)) [1, 2, 3, 4] 0 [2, 4, 6]) :=
@@ -293,13 +314,6 @@ def filterCall_eq_specCall_pending : Prop :=
   ∀ (numPairs denPairs : List (Int × K)) (mem : List K) (zero : K) (xs : List K),
     (∀ n d, normalise (mkPoly numPairs) (mkPoly denPairs) = .ok (n, d) → (dense d).length - 1 ≤ mem.length) →
     filterCall numPairs denPairs (Mem.iter mem) zero xs = specCall numPairs denPairs (Mem.iter mem) zero xs
-
-/-- Full statement not proved yet: compiling from the dense list (`values()`) produces the same
-summands as iterating the sparse `numdict` / `dendict` in `terms()` order, as the code does.
-Carried by the translator tie T3 (structural comparison with the captured source on every case). -/
-def compile_dense_eq_sparse_pending : Prop :=
-  ∀ (t : Terms K), (∀ kv ∈ t, 0 ≤ kv.1 ∧ kv.2 ≠ 0) → List.Pairwise (fun x y => x.1 < y.1) t →
-    numAtoms 0 (dense t) = (t.map (fun kv => numAtoms kv.1.toNat [kv.2])).flatten
 
 end ALV.Props.C04
 
